@@ -18,7 +18,7 @@ LEVEL = "model_checking"
 ASSUMPTIONS = [
     "two contexts (three in the thorough tier): one without limits, one with a time limit, one with time and memory limits",
     "time is the virtual poll clock; 'tick' advances it past the time limit between evals",
-    "operations outside the 17-operation alphabet and histories longer than the depth bound are not explored",
+    "operations outside the 23-operation alphabet and histories longer than the depth bound are not explored",
 ]
 
 CONFIGS = [{"tl": None, "ml": None}, {"tl": 3, "ml": None}, {"tl": 3, "ml": 20000}]
@@ -43,17 +43,26 @@ OPS = [
     ("keep regex", None, "var re = /a+$/;", "value", {"re": 1}),
     ("use kept regex", None, "typeof re === 'object' ? re.test('" + LONG + "') : 'nore'", "regex", {}),
     ("set a=11", None, ("set", "a", 11), "value", {"a": 11}),
+    ("a=12, loop forever inside try", "time", "a = 12; try { while (true) { } } catch (e) { a = -1 } finally { a = -2 }", "time", {"a": 12}),
+    ("a=13, recurse forever inside try", "limit", "a = 13; try { (function r() { return 1 + r() })() } catch (e) { a = -1 }", "limit", {"a": 13}),
+    ("cyclic stringify throws", None, "var cy = {k: {v: 1}}; cy.k.self = cy; JSON.stringify(cy);", "throw", {"cy": 1}),
+    ("break the cycle", None, "if (typeof cy === 'object') { cy.k.self = 1 }", "value", "uncycle"),
+    ("throw inside callback inside try-finally", None, "try { [1, 2].forEach(function (x) { a = 14; throw x }) } finally { b = 15 }", "throw", {"a": 14, "b": 15}),
+    ("deep array join fails", None, "c = 16; var dj = []; for (var i = 0; i < 150; i++) { dj = [dj] } '' + dj;", "deepjoin", {"c": 16}),
 ]
 TICK = len(OPS)          # environment transition: the clock jumps past every time limit
 
 PROBES = ["a", "b", "c"]
 EVAL_PROBES = [("f", "typeof f === 'function' ? f() : 'nofn'"), ("zz", "var o = {}; o.zz"), ("yy", "Math.yy"),
-               ("pi", "parseInt('7')"), ("undef", "typeof neverdefined"), ("re", "typeof re === 'object' ? 1 : 0")]
+               ("pi", "parseInt('7')"), ("undef", "typeof neverdefined"), ("re", "typeof re === 'object' ? 1 : 0"),
+               ("uncaught", "throw 'probe'"), ("caught", "var pr; try { null.x } catch (e) { pr = 'c' } pr"),
+               ("json", "JSON.stringify({q: [1, {}]}) + (typeof cy === 'object' && cy.k.self === 1 ? JSON.stringify(cy.k) : '')"),
+               ("join", "[1, [2, 3]].join() + [[]].join().length")]
 
 
 def initial(n):
     return tuple(tuple(sorted({"a": None, "b": None, "c": None, "f": None, "zz": None, "yy": None, "pi": None,
-                               "re": None}.items())) for _ in range(n))
+                               "re": None, "cy": None}.items())) for _ in range(n))
 
 
 def enabled(op, cfg):
@@ -70,6 +79,9 @@ def step_model(state, ci, op):
     upd = OPS[op][4]
     if upd == "inc":
         d["a"] = (d["a"] if isinstance(d["a"], int) else 0) + 1
+    elif upd == "uncycle":
+        if d["cy"] == 1:
+            d["cy"] = 2
     else:
         d.update(upd)
     return state[:ci] + (tuple(sorted(d.items())),) + state[ci + 1:]
@@ -84,6 +96,10 @@ def model_obs(cstate):
     o.append(repr(d["pi"] if d["pi"] is not None else 7))
     o.append(repr("undefined"))
     o.append(repr(1 if d["re"] else 0))
+    o.append("raises JSError")
+    o.append(repr("c"))
+    o.append(repr('{"q":[1,{}]}' + ('{"v":1,"self":1}' if d["cy"] == 2 else "")))
+    o.append(repr("1,2,30"))
     return ",".join(o)
 
 
@@ -165,6 +181,8 @@ def run_history(payload):
                 want = "value" if d["f"] is not None else "throw"
             elif cls == "limit":
                 want = oc if oc in ("time", "memory") else "time or memory"
+            elif cls == "deepjoin":
+                want = oc if oc in ("value", "throw", "time", "memory") else "value or a JSError"
             elif cls == "regex":
                 want = oc if oc in ("value", "time") and cfgs[ci]["tl"] is not None else "value"
             else:
@@ -215,10 +233,10 @@ def spaces(tier, seed, all_strata=False):
     for n, depth in todo:
         out.append(_sp("c12_bfs_%dctx_d%d" % (n, depth), (lambda n=n, depth=depth: _cases(n, depth)),
                        "breadth-first search of the reference model with %d contexts (limits: none / time / time+memory) to depth %d "
-                       "over 17 operations per context (define, assign, redefine and call a function, mutate three built-ins, "
+                       "over 23 operations per context (define, assign, redefine and call a function, mutate three built-ins, "
                        "throw / loop forever / recurse forever after a committed effect, syntax error, indirect eval, new Function, "
                        "keep and reuse a regex, set) plus a clock tick; one case per model transition, replayed from a fresh "
-                       "set of contexts, the outcome class of every step and the state of ALL contexts (9 probes each) after the last step compared with the model; non-trivial = history of "
+                       "set of contexts, the outcome class of every step and the state of ALL contexts (13 probes each) after the last step compared with the model; non-trivial = history of "
                        "length >= 2" % (n, depth), "depth %d" % depth))
     return out
 
